@@ -398,6 +398,7 @@ func C03(r *core.Run) {
 			{Name: "locale and time zone", Bin: r.Crs, Env: []string{"TZ=Asia/Tokyo", "LANG=de_DE.UTF-8", "LC_ALL=tr_TR.UTF-8"}},
 			{Name: "user, host, terminal", Bin: r.Crs, Env: []string{"USER=someone", "LOGNAME=someone", "HOSTNAME=elsewhere", "TERM=dumb", "COLUMNS=20", "NO_COLOR="}},
 			{Name: "binary at another path", Bin: altBin},
+			{Name: "a CI runner's environment", Bin: r.Crs, Env: []string{"GITHUB_ACTIONS=true", "GITHUB_WORKFLOW=lint", "GITHUB_WORKSPACE=/home/runner/work", "RUNNER_OS=Linux", "GITLAB_CI=true", "TERM=xterm-256color", "CLICOLOR_FORCE=1", "DEBUG=1", "LOG_LEVEL=trace"}},
 			{Name: "relative -d from a subdirectory", Bin: r.Crs, Sub: true},
 			{Name: "one second later", Bin: r.Crs, Wait: true},
 		}
@@ -495,6 +496,7 @@ func C03(r *core.Run) {
 		var out envOut
 		idx := 0
 		for _, shell := range []string{"unix", "windows"} {
+			// (blocks with a repeated line next to other alternatives are part of the same stage, see below)
 			for _, w := range []string{"vim", "vim@", "vim~", "vim~@", "vim@~", "vim@@", "vim~~", `vim\@~`, `vim\~@`, `vim~\@`, "v@m", "'vim~@", "a b@~"} {
 				for _, tpl := range []string{"##!> cmdline %s\n%s\n##!<\n", "##!> cmdline %s\nls\n%s\ncat~\n##!<\nfoo\n", "##!> assemble\n##!> cmdline %s\n%s\n##!<\n##!=>\nx\n##!<\n"} {
 					if idx++; idx%n != shard {
@@ -507,6 +509,18 @@ func C03(r *core.Run) {
 						out.Bad = append(out.Bad, fmt.Sprintf("`regex generate` of %q has %d outcomes under different map orders: %q", text, len(outs), clip(outs, 100)))
 					}
 				}
+			}
+		}
+		// a line that occurs twice among other alternatives (directly, and through two includes that share a word)
+		for ri, text := range []string{"foo\nbar\nfoo\nbaz\n", "alpha\nbeta\nalpha\ngamma\ndelta\n", "##!> include inc\nzz\n##!> include inc\nqq\n", "##!> include dup\nother\nthing\n",
+			"##!> assemble\nfoo\nbar\nfoo\nbaz\n##!<\nqux\n", "##!> cmdline unix\nls\ncat\nls\nwho\n##!<\n"} {
+			if ri%n != shard {
+				continue
+			}
+			outs, _, ex := outcomesUnder(2, func() string { return root.Generate(text).String() })
+			out.Runs += ex
+			if len(outs) > 1 {
+				out.Bad = append(out.Bad, fmt.Sprintf("`regex generate` of %q has %d outcomes under different map orders: %q", text, len(outs), clip(outs, 100)))
 			}
 		}
 		emit(out)
